@@ -25,6 +25,7 @@ def _load_body(pid, tier, seed, srcbase, body):
 def replay(pid, tier, seed, srcbase, body, call):
     """`call` is CrossHair's printed call, e.g. "ob_x(k=1, f=float('nan'))"; only its arguments are used."""
     os.environ.setdefault('VERIF_TIER', tier)
+    os.environ['VERIF_SEED'] = str(seed)
     import hlib
     f = _load_body(pid, tier, seed, srcbase, body)
     argsrc = call[call.index('('):]
